@@ -301,3 +301,47 @@ func TestVerifC12Conc(t *testing.T) {
 		out.emit(map[string]interface{}{"kind": "conc", "scenario": sc.name, "reps": nrep, "outcomes": counts})
 	}
 }
+
+// TestVerifC12Shapes: data posts whose `msg` has every JSON shape (the browser shim sends a string or a
+// one-element array holding a base64 string).  Each is answered, and afterwards the session still
+// carries a well-formed message to the backend.  A panic outside a handler (the connection's writer
+// goroutine) ends this test binary: the driver reports that as a crash of the agent.
+func TestVerifC12Shapes(t *testing.T) {
+	out := verifOpenOut(t)
+	defer out.close()
+	be := newVerifWSBackend()
+	defer be.srv.Close()
+	shim := newVerifShim(be.host(), false)
+	shapes := []string{`"text"`, `""`, `["aGk="]`, `[42]`, `[null]`, `[{"a":1}]`, `[]`, `["aGk=","aGk="]`, `["not base64 !!"]`, `[["aGk="]]`, `42`, `null`, `true`, `{"x":1}`, `[true]`, `[1.5]`, `[""]`}
+	for i, shape := range shapes {
+		for _, version := range []string{"", "1"} {
+			r, id := shim.open("ws://ignored/ws", version)
+			if r.Status != 200 {
+				out.emit(map[string]interface{}{"kind": "shape", "shape": shape, "version": version, "error": fmt.Sprintf("open: %d", r.Status)})
+				continue
+			}
+			bc := <-be.newC
+			body := []byte(fmt.Sprintf(`[{"id":%q,"msg":%s}]`, id, shape))
+			dr := shim.call("data", body, nil, 5*time.Second)
+			time.Sleep(30 * time.Millisecond)
+			// the session (and the agent) must still work
+			good, _ := json.Marshal([]map[string]interface{}{{"id": id, "msg": fmt.Sprintf("after-%d", i)}})
+			gr := shim.call("data", good, nil, 5*time.Second)
+			delivered := false
+			deadline := time.Now().Add(2 * time.Second)
+			for time.Now().Before(deadline) && !delivered {
+				for _, m := range bc.received() {
+					if string(m.Data) == fmt.Sprintf("after-%d", i) {
+						delivered = true
+					}
+				}
+				if !delivered {
+					time.Sleep(20 * time.Millisecond)
+				}
+			}
+			cr := shim.call("close", verifSessionBody(id), nil, 5*time.Second)
+			out.emit(map[string]interface{}{"kind": "shape", "shape": shape, "version": version, "status": dr.Status, "followup_status": gr.Status, "followup_delivered": delivered, "close_status": cr.Status})
+		}
+	}
+	out.emit(map[string]interface{}{"kind": "shapes-survived"})
+}
